@@ -78,10 +78,10 @@ def Rec.prune (r : Rec) : Option Rec :=
 
 /-- `prune()` of a recording, computed while replaying the recording calls: when a group is
     closed with `discard`, its data and every group opened inside it are dropped on the spot.
-    Same data and same finished groups as `recOfToks` followed by `Rec.prune` (cross-checked by
-    the driver on every recording it sees); the only difference is that Go's `removeGroup`
-    also forgets unfinished groups that directly follow a removed one in the list — entries
-    every pass of the shrinker skips. -/
+    Same data and same finished groups as `recOfToks` followed by `Rec.prune`, for the recording of
+    every run (`RapidProofs.PruneLiteralRun.literal_prune_of_run`; also cross-checked by the driver on
+    every recording it sees); the only difference is that Go's `removeGroup` also forgets unfinished
+    groups that directly follow a removed one in the list — entries every pass of the shrinker skips. -/
 def pruneGoT : List Tok → Rec → List (Nat × Nat) → Rec
   | [], r, _ => r
   | .w u :: ts, r, st => pruneGoT ts { r with data := r.data ++ [u] } st
